@@ -2,30 +2,53 @@
 
 package rib
 
+// Harness entry points of the RIB family (C01, C02, C03, C12 and the RIB half
+// of C06): the same driver with different bounds; each check selects its own
+// assertion labels with -only.
+
 func init() {
-	vfRegister("VfRIB_StepQuick", VfRIB_StepQuick)
+	vfRegister("VfRIB_q1", VfRIB_q1)
+	vfRegister("VfRIB_q2", VfRIB_q2)
+	vfRegister("VfRIB_qNoFwd", VfRIB_qNoFwd)
+	vfRegister("VfRIB_t1", VfRIB_t1)
+	vfRegister("VfRIB_t2", VfRIB_t2)
+	vfRegister("VfRIB_tOrder", VfRIB_tOrder)
 }
 
-// VfRIB_StepQuick: canonical pre-state (1 next-hop, 1 group with <=1 member,
-// 1 top-level entry, 1 held operation; two network instances) + one fully
-// symbolic operation, checked against the reference.
-func VfRIB_StepQuick() {
-	r, ref := vfNewPair(true)
-	g := &vfGen{}
-	vfCanonical(r, ref, g, vfPreCfg{nNH: 1, nNHG: 1, nTop: 1, nHeld: 1, members: 1, topKinds: []int{vfKV4, vfKMPLS}})
-	vfReach("pre-built")
-	d := g.any("op", 2)
-	st := vfSubmit(r, ref, d)
-	ref.compare(r)
-	switch st {
-	case vfStAcked:
-		vfReach("acked")
-	case vfStFailed:
-		vfReach("failed")
-	case vfStHeld:
-		vfReach("held")
-	case vfStErr:
-		vfReach("error")
-	}
-	vfReach("end")
+var vfTopQ = []int{vfKV4, vfKMPLS}
+var vfTopAll = []int{vfKV4, vfKV6, vfKMPLS}
+
+// q1: installed state only (no held operations): 1 next-hop, 1 group (<=1 member) in the default
+// instance, 1 top-level entry (IPv4/MPLS, either instance, optional cross-instance reference);
+// one fully symbolic operation.
+func VfRIB_q1() {
+	vfRIBRun(vfRunCfg{pre: vfPreCfg{nNH: 1, nNHG: 1, nTop: 1, members: 1, topKinds: vfTopQ}, fixLow: true, steps: 1, members: 2})
+}
+
+// q2: held operations: 1 next-hop, 1 group, 1 held operation (group or top-level entry, either instance);
+// one symbolic ADD/REPLACE/DELETE.
+func VfRIB_q2() {
+	vfRIBRun(vfRunCfg{pre: vfPreCfg{nNH: 1, nNHG: 1, nHeld: 1, members: 1, topKinds: vfTopQ}, fixLow: true, steps: 1, members: 1})
+}
+
+// qNoFwd: forward references disallowed; installed state as q1 without the top-level entry.
+func VfRIB_qNoFwd() {
+	vfRIBRun(vfRunCfg{noFwd: true, pre: vfPreCfg{nNH: 1, nNHG: 1, members: 1, topKinds: vfTopQ}, fixLow: true, steps: 1, members: 1})
+}
+
+// t1: the full single-step configuration: all slots in either instance, optional payload fields,
+// held REPLACE, all three top-level kinds, both forward-reference modes.
+func VfRIB_t1() {
+	vfRIBRun(vfRunCfg{fwdBoth: true, pre: vfPreCfg{nNH: 1, nNHG: 1, nTop: 1, nHeld: 1, members: 1, topKinds: vfTopAll}, rich: true, steps: 1, members: 2})
+}
+
+// t2: two symbolic operations from a smaller pre-state (histories of length 2 after the canonical prefix).
+func VfRIB_t2() {
+	vfRIBRun(vfRunCfg{pre: vfPreCfg{nNH: 1, nNHG: 1, nTop: 1, members: 1, topKinds: []int{vfKV4}}, fixLow: true, steps: 2, members: 1})
+}
+
+// tOrder: two held operations and every order of the held-operation walk (map iteration order symbolic).
+func VfRIB_tOrder() {
+	vfRIBRun(vfRunCfg{pre: vfPreCfg{nNH: 1, nNHG: 1, nHeld: 2, members: 1, topKinds: []int{vfKV4}}, fixLow: true, steps: 1, members: 1,
+		typLo: 1, typHi: 2, kinds: []int{vfKNH, vfKNHG}, mapOrder: true})
 }
